@@ -20,15 +20,35 @@ AST = "oq3_syntax::ast::"
 ITER = ("::next", "::nth", "::last")
 
 
+def private_helpers(prog):
+    """Non-public functions of the hand-written AST modules, other than the reviewed `nodes_around_else`: a public
+    accessor that delegates to one of them is evaluated through it (the helper has no role of its own)."""
+    # private functions that existed when the role tables were reviewed keep their own identity in the tables
+    # (conditions such as `is_repeat(self)`, the reviewed helper accessors); only helpers introduced later are looked into
+    KEEP = ("AstChildren::new", "expr_ext::ArrayExpr::is_repeat", "expr_ext::Gate::angles_and_or_qubits", "node_ext::AnnotationStatement::text",
+            "node_ext::PragmaStatement::text", "node_ext::text_of_first_token", "node_ext::text_of_first_token::first_token")
+    return {k for k, b in prog.bodies.items()
+            if not k.endswith(KEEP) and k.startswith(AST) and "::generated::" not in k and "{closure" not in k and str(b.vis) not in ("pub", "n/a") and not k.endswith("::nodes_around_else")
+            and not k.startswith((AST + "edit::", AST + "token_ext::", AST + "make::", AST + "support::", AST + "traits::", AST + "operators::", AST + "prec::"))}
+
+
+def _selects_by_position(prog, k, helpers, depth=0):
+    b = prog.body(k)
+    cs = [(b.callee_of(t) or "") for _, t in b.calls()]
+    if any(c.endswith(ITER) or c.endswith(("::skip", "::rev", "::nth_back", "::first_child", "::last_child", "::next_sibling", "::prev_sibling")) for c in cs):
+        return True
+    return depth < 3 and any(c in helpers and _selects_by_position(prog, c, helpers, depth + 1) for c in cs)
+
+
 def positional_accessors(prog):
     out = []
+    helpers = private_helpers(prog)
     for k, b in sorted(prog.bodies.items()):
         if not k.startswith(AST) or "::generated::" in k or "{closure" in k or k.startswith(AST + "edit::") or k.startswith(AST + "token_ext::") or k.startswith(AST + "make::"):
             continue
-        if k.endswith("::nodes_around_else"):
-            continue            # helper (child nodes before / after the `else` keyword): checked by helper_check()
-        cs = [(b.callee_of(t) or "") for _, t in b.calls()]
-        if any(c.endswith(ITER) or c.endswith(("::skip", "::rev", "::nth_back", "::first_child", "::last_child", "::next_sibling", "::prev_sibling")) for c in cs):
+        if k.endswith("::nodes_around_else") or k in helpers:
+            continue            # helpers: nodes_around_else is checked by helper_check(); private ones are looked into from their callers
+        if _selects_by_position(prog, k, helpers):
             out.append(k)
     return out
 
@@ -36,12 +56,24 @@ def positional_accessors(prog):
 def table(prog, fn, inline_local=True):
     """[(conditions tuple, result string)] sorted; None if the accessor uses an idiom the model does not know."""
     b = prog.body(fn)
-    ty_at = {}
-    for bi, t in b.calls():
-        c = b.callee_of(t) or ""
-        if c.endswith("support::children") or c.endswith("support::child"):
-            ra = t.get("rargs") or t.get("gargs") or ["?"]
-            ty_at[bi] = ra[0].split("::")[-1]
+    helpers = private_helpers(prog)
+
+    def ty_of_site(site):
+        """child type T of the support::children::<T> / child::<T> call at a call site (through inlined helpers)"""
+        body = b
+        try:
+            for (bb_, v_) in site[:-1]:
+                body = prog.body(body.callee_of(body.blocks[bb_].term))
+            t_ = body.blocks[site[-1][0]].term
+            ra = t_.get("rargs") or t_.get("gargs") or ["?"]
+            return ra[0].split("::")[-1]
+        except Exception:
+            return "?"
+
+    class _TyAt(dict):
+        def get(self, key, default=None):
+            return ty_of_site(key) if isinstance(key, tuple) else default
+    ty_at = _TyAt()
     rows = set()
     unknown = []
     def _opt_model(se_, st, t, cal, args, site):
@@ -62,13 +94,13 @@ def table(prog, fn, inline_local=True):
         if nm == "and" and len(args) == 2:
             return [(some, args[1], False), (none, ("adt", "std::option::Option::None", ()), False)]
         return None
-    se = SymExec(prog, b, max_paths=400, call_model=_opt_model)
+    se = SymExec(prog, b, max_paths=400, call_model=_opt_model, inline=lambda c: c in helpers)
     for p in se.paths():
         if "__diverged__" in p.env:
             continue
         counters = {}
         label = {}
-        for name, args, bb in p.calls:
+        for (name, args, bb), csite in zip(p.calls, p.sites if len(p.sites) == len(p.calls) else [None] * len(p.calls)):
             if not (name.endswith(ITER) and ("AstChildren" in name or "vec::IntoIter" in name) or name.endswith("Iterator::nth") or name.endswith("Iterator::last")):
                 if name.endswith(("::skip", "::rev", "::nth_back", "::step_by", "::filter", "::collect", "::peekable")):
                     unknown.append(name.split("::")[-1])
@@ -87,7 +119,7 @@ def table(prog, fn, inline_local=True):
                 T = "node-after-else" if r2[2][1][2] else "node-before-else"
             elif isinstance(root, tuple) and root[0] == "call" and root[1].endswith("support::children"):
                 key = root[3]
-                T = ty_at.get(key[0][0], "?")
+                T = ty_at.get(tuple(key), "?")
             else:
                 unknown.append("iterator origin " + show(root)[:40])
                 continue
@@ -104,18 +136,18 @@ def table(prog, fn, inline_local=True):
                 unknown.append("last")
                 continue
             counters[key] = c1
-            label[bb] = f"{T}#{idx}"
+            label[tuple(csite) if csite else ((bb, 0),)] = f"{T}#{idx}"
 
         def ren(t):
             t = strip_transparent(t) if isinstance(t, tuple) else t
             if not isinstance(t, tuple):
                 return str(t)
-            if t[0] == "call" and t[3] and t[3][0][0] in label and t[1].endswith(ITER):
-                return label[t[3][0][0]]
+            if t[0] == "call" and t[3] and tuple(t[3]) in label and t[1].endswith(ITER):
+                return label[tuple(t[3])]
             if t[0] in ("call", "pure"):
                 nm = t[1].split("::")[-1]
                 if t[1].endswith("support::child") and t[3]:
-                    return ty_at.get(t[3][0][0], "?") + "#first"
+                    return ty_at.get(tuple(t[3]), "?") + "#first"
                 return nm + "(" + ", ".join(ren(x) for x in t[2]) + ")"
             if t[0] == "tuple":
                 return "(" + ", ".join(ren(x) for x in t[1]) + ")"
